@@ -39,15 +39,15 @@ def main():
     dst = os.path.join(V, "seeded", sid)
     meta = json.load(open(os.path.join(src, "meta.json")))
     os.makedirs(dst, exist_ok=True)
-    for f in os.listdir(src):
-        if os.path.isfile(os.path.join(src, f)):
-            shutil.copy(os.path.join(src, f), os.path.join(dst, f))
     old = {}
     if os.path.exists(os.path.join(dst, "meta.json")):
         try:
             old = json.load(open(os.path.join(dst, "meta.json"))).get("confirmation", {})
         except Exception:
             old = {}
+    for f in os.listdir(src):
+        if os.path.isfile(os.path.join(src, f)):
+            shutil.copy(os.path.join(src, f), os.path.join(dst, f))
     wt = os.path.join("/tmp/sc", sid)
     os.makedirs("/tmp/sc", exist_ok=True)
     subprocess.run(["git", "-C", "/repo", "worktree", "remove", "--force", wt], stdout=subprocess.DEVNULL, stderr=subprocess.DEVNULL)
